@@ -71,6 +71,10 @@ func genResp(t *rapid.T, size int) Resp {
 	if strings.HasPrefix(r.ContentType, "multipart/byteranges; boundary=B") {
 		n := rapid.IntRange(0, 4).Draw(t, "nparts")
 		for i := 0; i < n; i++ {
+			if i > 0 && rapid.IntRange(0, 2).Draw(t, "samepart") == 0 {
+				r.Parts = append(r.Parts, r.Parts[i-1]) // the same part twice
+				continue
+			}
 			r.Parts = append(r.Parts, rapid.SampledFrom(crs).Draw(t, "partcr"))
 		}
 		r.PartLen = rapid.SampledFrom([]int{0, 1, 8, 64}).Draw(t, "partlen")
